@@ -197,10 +197,12 @@ func pageBeaconAmongCandidates(sw hydra.Swamp, candidates []treasure.Treasure, b
 // slice. Used by the cap-bearing flows (PatchExpired, ShiftMatching)
 // which keep the engine's beacon-walk-based atomicity primitive and
 // rely on a wrapped selectionPredicate to fast-reject non-candidates.
+//
+// The result is never nil: an empty candidate list means "the indexed
+// leg matched nothing", which is different from "there is no indexed
+// leg" — callers use a nil set for the latter and must reject every
+// treasure for the former.
 func candidateKeySet(candidates []treasure.Treasure) map[string]struct{} {
-	if len(candidates) == 0 {
-		return nil
-	}
 	out := make(map[string]struct{}, len(candidates))
 	for _, t := range candidates {
 		out[t.GetKey()] = struct{}{}
